@@ -172,7 +172,56 @@ func runSpawnOwnership(p *Program, r *RuleResult) {
 				case kept == "":
 					r.add(name, construct, Violated, p.instrPos(c), fmt.Sprintf("the new process is given %s but the spawner does not move on to a different child of the same form", bc.path))
 				default:
-					r.add(name, construct, Holds, p.instrPos(c), fmt.Sprintf("disjoint subtrees: spawned %s, spawner keeps %s", bc.path, kept))
+					// ordering: when the new process starts running, the spawner's body must
+					// already be the other child; as long as it is still the whole form, every
+					// deep read of the spawner's body (monitor snapshot, logging) reads the
+					// subtree the new goroutine is rewriting
+					newProc, _ := c.(ssa.Value)
+					late := ""
+					if newProc != nil && fn.Parent() == nil || newProc != nil {
+						isKeep := func(in ssa.Instruction) bool {
+							st, ok := in.(*ssa.Store)
+							if !ok {
+								return false
+							}
+							if _, fname, ok := fieldNameOf(st.Addr); !ok || fname != "Body" {
+								return false
+							}
+							vp := accessPath(st.Val)
+							return strings.HasPrefix(vp, root+".") && vp != bc.path
+						}
+						for _, c2 := range p.callsIn(fn) {
+							uses := false
+							for _, a := range c2.Common().Args {
+								if a == newProc {
+									uses = true
+								}
+							}
+							if !uses || c2 == c {
+								continue
+							}
+							sc := c2.Common().StaticCallee()
+							starts := false
+							if _, isGo := c2.(*ssa.Go); isGo {
+								starts = true
+							}
+							if sc != nil {
+								for _, c3 := range p.callsIn(sc) {
+									if _, isGo := c3.(*ssa.Go); isGo {
+										starts = true
+									}
+								}
+							}
+							if starts && !view.passedBefore(c2, isKeep) {
+								late = p.instrPos(c2)
+							}
+						}
+					}
+					if late != "" {
+						r.add(name, construct, Violated, p.instrPos(c), fmt.Sprintf("the new process (body %s) is started at %s while the spawner's body is still the whole form: until the spawner moves on to %s, whatever reads the spawner's body deeply (the monitor's snapshot when the rule is reported, logging) reads the subtree the new goroutine is already rewriting", bc.path, late, kept))
+					} else {
+						r.add(name, construct, Holds, p.instrPos(c), fmt.Sprintf("disjoint subtrees: spawned %s, spawner keeps %s and has moved on to it before the new process starts", bc.path, kept))
+					}
 				}
 			default:
 				r.add(name, construct, Violated, p.instrPos(c), fmt.Sprintf("the body of the new process is neither fresh, a copy, nor a disjoint child of the executing form (%s %s): it may be shared with a running goroutine", bc.kind, bc.path))
